@@ -497,35 +497,37 @@ func GetLogLevel(level string) (uint32, error) {
 }
 
 // NewConfig creates a new Config with default settings and applies any
-// settings from the given configuration file.
+// settings from the given configuration file (if any) and from LIFTBRIDGE_*
+// environment variables.
 func NewConfig(configFile string) (*Config, error) { // nolint: gocyclo
 	var (
 		config = NewDefaultConfig()
 		v      = viper.New()
 	)
 
-	// Return default config if config file is not given.
-	if configFile == "" {
-		return config, nil
-	}
-
-	// Expect a yaml config file.
-	v.SetConfigFile(configFile)
-	v.SetConfigType("yaml")
-
-	// Allow overriding config with environment variables
+	// Allow overriding config with environment variables prefixed with
+	// LIFTBRIDGE_. Nested keys are addressed by replacing "." with "_", e.g.
+	// telemetry.enabled is overridden by LIFTBRIDGE_TELEMETRY_ENABLED. This
+	// applies whether or not a config file is given.
 	v.SetEnvPrefix("LIFTBRIDGE")
+	v.SetEnvKeyReplacer(strings.NewReplacer(".", "_"))
 	v.AutomaticEnv()
 
-	// Parse the config file.
-	if err := v.ReadInConfig(); err != nil {
-		return nil, errors.Wrap(err, "Failed to load configuration file")
-	}
+	if configFile != "" {
+		// Expect a yaml config file.
+		v.SetConfigFile(configFile)
+		v.SetConfigType("yaml")
 
-	// Validate config settings.
-	for _, setting := range v.AllKeys() {
-		if _, ok := configKeys[setting]; !ok {
-			return nil, fmt.Errorf("Unknown configuration setting %q", setting)
+		// Parse the config file.
+		if err := v.ReadInConfig(); err != nil {
+			return nil, errors.Wrap(err, "Failed to load configuration file")
+		}
+
+		// Validate config settings.
+		for _, setting := range v.AllKeys() {
+			if _, ok := configKeys[setting]; !ok {
+				return nil, fmt.Errorf("Unknown configuration setting %q", setting)
+			}
 		}
 	}
 
